@@ -513,3 +513,133 @@ Proof.
   unfold wupsert.
   rewrite (when_true_everywhere (SCont (mkMeta [] [] true [] None) kids)); simpl; auto.
 Qed.
+
+(** * the restriction, position by position: "written iff the condition holds on the target at that moment" *)
+Lemma xbind_ok {A B} (x : xres A) (f : A -> xres B) b :
+  xbind x f = XOk b -> exists a, x = XOk a /\ f a = XOk b.
+Proof. destruct x; simpl; intros H; try discriminate. eauto. Qed.
+
+Local Opaque merge_one.
+
+(** one step of the restriction: the target moves on by the head of the merge *)
+Lemma wr_kids_step rrec created kids k ks sd srest pre td rest sc' :
+  when_schema_ok k = true ->
+  wr_kids rrec created kids (k :: ks) (sd :: srest) pre (td :: rest) = XOk sc' ->
+  exists y r, sc' = y :: r /\
+    wr_kids rrec created kids ks srest (pre ++ [mhead created k y td]) rest = XOk r /\
+    (sd = None -> y = None) /\
+    (forall m ty il dflt d, k = SLeaf m ty il dflt -> sd = Some d ->
+       exists ok, when_field true [] kids (pre ++ td :: rest) k = XOk ok /\
+                  y = (if ok then Some d else None) /\
+                  mhead created k y td = (if ok then Some d else td)).
+Proof.
+  intros Hok H. cbn [wr_kids] in H. fold (wr_kids rrec created kids) in H.
+  destruct k as [m ty il dflt|m kk|m keys row].
+  - destruct sd as [d|].
+    + apply xbind_ok in H as [ok [Ew H]]. destruct ok.
+      * apply xbind_ok in H as [r [Hr H]]. inversion H; subst sc'.
+        exists (Some d), r. repeat split; auto; try discriminate.
+        intros m0 ty0 il0 dflt0 d0 Heq Hd. inversion Heq; subst. inversion Hd; subst.
+        exists true. auto.
+      * apply xbind_ok in H as [r [Hr H]]. inversion H; subst sc'.
+        assert (dflt = None) as -> by (eapply when_schema_leaf; [exact Hok|rewrite Ew; discriminate]).
+        assert (Hm : mhead created (SLeaf m ty il None) None td = td) by (simpl; destruct created; reflexivity).
+        exists None, r. rewrite Hm. repeat split; auto.
+        intros m0 ty0 il0 dflt0 d0 Heq Hd. inversion Heq; subst. inversion Hd; subst.
+        exists false. auto.
+    + destruct (if created then option_map DLeaf dflt else None) as [d|] eqn:Ev.
+      * destruct created; [|discriminate]. destruct dflt as [v|]; [|discriminate].
+        simpl in Ev. inversion Ev; subst d.
+        apply xbind_ok in H as [ok [Ew H]]. destruct ok.
+        -- apply xbind_ok in H as [r [Hr H]]. inversion H; subst sc'.
+           exists None, r. repeat split; auto; discriminate.
+        -- exfalso. assert (Some v = None) by (eapply when_schema_leaf; [exact Hok|rewrite Ew; discriminate]).
+           discriminate.
+      * apply xbind_ok in H as [r [Hr H]]. inversion H; subst sc'.
+        assert (Hm : mhead created (SLeaf m ty il dflt) None td = td).
+        { simpl. destruct created; [|reflexivity]. destruct dflt; [discriminate|reflexivity]. }
+        exists None, r. rewrite Hm. repeat split; auto; discriminate.
+  - destruct sd as [sdn|].
+    + destruct td as [[|cc|]|]; try discriminate H.
+      * apply xbind_ok in H as [ok [Ew H]]. destruct ok.
+        -- apply xbind_ok in H as [sdn' [Hr H]]. apply xbind_ok in H as [r [Hgo H]]. inversion H; subst sc'.
+           exists (Some sdn'), r. repeat split; auto; discriminate.
+        -- apply xbind_ok in H as [ok' [_ H]]. destruct ok'; discriminate.
+      * apply xbind_ok in H as [ok [Ew H]]. destruct ok; [|discriminate].
+        apply xbind_ok in H as [sdn' [Hr H]]. apply xbind_ok in H as [r [Hgo H]]. inversion H; subst sc'.
+        exists (Some sdn'), r. repeat split; auto; discriminate.
+    + apply xbind_ok in H as [r [Hr H]]. inversion H; subst sc'.
+      exists None, r. repeat split; auto; discriminate.
+  - destruct sd as [sdn|].
+    + destruct (has_when (SList m keys row)); [discriminate|].
+      apply xbind_ok in H as [sdn' [Hr H]]. apply xbind_ok in H as [r [Hgo H]]. inversion H; subst sc'.
+      exists (Some sdn'), r. repeat split; auto; discriminate.
+    + apply xbind_ok in H as [r [Hr H]]. inversion H; subst sc'.
+      exists None, r. repeat split; auto; discriminate.
+Qed.
+
+Lemma wr_kids_laws rrec created kids : forall ks srest pre rest sc',
+  forallb when_schema_ok ks = true -> length srest = length ks -> length rest = length ks ->
+  wr_kids rrec created kids ks srest pre rest = XOk sc' ->
+  forall j,
+    (created = false -> nth j srest None = None ->
+       nth j sc' None = None /\ nth j (merge_kids merge_one created ks sc' rest) None = nth j rest None) /\
+    (forall m ty il dflt d, nth_error ks j = Some (SLeaf m ty il dflt) -> nth j srest None = Some d ->
+     exists ok,
+       when_field true [] kids
+         (pre ++ firstn j (merge_kids merge_one created ks sc' rest) ++ skipn j rest) (SLeaf m ty il dflt) = XOk ok /\
+       nth j sc' None = (if ok then Some d else None) /\
+       nth j (merge_kids merge_one created ks sc' rest) None = (if ok then Some d else nth j rest None)).
+Proof.
+  induction ks as [|k ks IH]; intros srest pre rest sc' Hok Hls Hlr H j.
+  - destruct srest, rest; try discriminate. simpl in H. inversion H; subst sc'. split.
+    + intros _ _. destruct j; split; reflexivity.
+    + intros m ty il dflt d Hn. destruct j; discriminate.
+  - destruct srest as [|sd srest], rest as [|td rest]; try discriminate.
+    simpl in Hok. apply andb_true_iff in Hok as [Hokk Hok].
+    destruct (wr_kids_step _ _ _ _ _ _ _ _ _ _ _ Hokk H) as [y [r [-> [Hgo [Hnone Hleaf]]]]].
+    rewrite merge_kids_cons.
+    destruct j as [|j].
+    + split.
+      * intros Hc Hn. simpl in Hn. subst sd. rewrite (Hnone eq_refl). split; [reflexivity|].
+        subst created. simpl. destruct k; reflexivity.
+      * intros m ty il dflt d Hn Hd. simpl in Hn, Hd. inversion Hn; subst k. subst sd.
+        destruct (Hleaf m ty il dflt d eq_refl eq_refl) as [ok [Ew [Hy Hm]]].
+        exists ok. cbn [firstn skipn nth app]. rewrite Hm. auto.
+    + simpl in Hls, Hlr.
+      destruct (IH srest (pre ++ [mhead created k y td]) rest r Hok (eq_add_S _ _ Hls) (eq_add_S _ _ Hlr) Hgo j)
+        as [IH1 IH2].
+      split.
+      * intros Hc Hn. simpl in Hn |- *. apply IH1; auto.
+      * intros m ty il dflt d Hn Hd. simpl in Hn, Hd.
+        destruct (IH2 m ty il dflt d Hn Hd) as [ok [Ew [Hy Hm]]].
+        exists ok. cbn [firstn skipn nth app]. rewrite <- app_assoc in Ew. cbn [app] in Ew. auto.
+Qed.
+
+(** at the entry point, in terms of the editor's result [r]:
+    a conditional (or unconditional) leaf the source brings is written iff its condition holds on the target in
+    which the definitions BEFORE it have already been written ([firstn i r]) and the others are still as they
+    were ([skipn i tgt]); if it does not hold the leaf is left as it was; what the source does not mention
+    is left as it was. *)
+Theorem wupsert_writes_exactly kids src tgt src' :
+  forallb wf_schema kids = true -> forallb choice_free kids = true -> forallb when_schema_ok kids = true ->
+  shaped_kids shaped kids src = true -> shaped_kids shaped kids tgt = true ->
+  wrestrict_content kids src tgt = XOk src' ->
+  exists r, wupsert kids src tgt = XOk r /\ r = merge_content kids src' tgt /\
+    (forall i, nth i src None = None -> nth i r None = nth i tgt None) /\
+    (forall i m ty il dflt d, nth_error kids i = Some (SLeaf m ty il dflt) -> nth i src None = Some d ->
+       exists ok, when_field true [] kids (firstn i r ++ skipn i tgt) (SLeaf m ty il dflt) = XOk ok /\
+                  nth i src' None = (if ok then Some d else None) /\
+                  nth i r None = (if ok then Some d else nth i tgt None)).
+Proof.
+  intros Hwf Hcf Hok Hs Ht Hr.
+  pose proof (wupsert_is_edit_of_restricted kids src tgt Hwf Hcf Hok Hs Ht) as H. rewrite Hr in H.
+  destruct H as [H1 _]. exists (merge_content kids src' tgt). split; [exact H1|]. split; [reflexivity|].
+  pose proof (shaped_kids_length _ _ _ Hs) as Hls. pose proof (shaped_kids_length _ _ _ Ht) as Hlt.
+  unfold wrestrict_content in Hr. unfold merge_content.
+  split.
+  - intros i Hn. destruct (wr_kids_laws _ _ _ _ _ _ _ _ Hok Hls Hlt Hr i) as [L _].
+    apply L; auto.
+  - intros i m ty il dflt d Hn Hd.
+    destruct (wr_kids_laws _ _ _ _ _ _ _ _ Hok Hls Hlt Hr i) as [_ L]. exact (L m ty il dflt d Hn Hd).
+Qed.
